@@ -503,7 +503,9 @@ macro_rules! global_entry_sink {
                     } else {
                         *write = Some((BoxEntrySink::new(sink), Box::new(handle)));
                     }
-                    AttachHandle::new(|| { SINK.write().unwrap().take(); })
+                    // (the detached sink is dropped - which joins the writer thread of a background queue, after its
+                    // final drain - only once the lock is released: that thread may use this global itself)
+                    AttachHandle::new(|| { let detached = SINK.write().unwrap().take(); drop(detached); })
                 }
 
                 fn try_sink() -> Option<BoxEntrySink> {
